@@ -27,7 +27,8 @@ META = {
         'coordinates use %f (documented six decimals); everything else is exact.  (D6) assembly: every meta item but '
         'ver, every column with its remaining keys, every row key reach the grid; every column of every row is '
         'emitted.  (D7) date-time payloads: the reader converts the written instant into the named zone with astimezone (never replace/localize on the aware value), the writer emits isoformat() of the value itself plus the zone name.  Also: the h: time fields are converted with int() on digit text (no float leg, fraction cut/padded as text); the reader consumes private copies only (freshness, shared with C05.D3); SortableDict.items() pairs keys with their own values (shared with C16.D5).  Not decided: numerical closeness; equality of rebuilt objects; json.dumps/loads (trusted).'
-        ' Also (D2): the JSON reference branch decides presence of the display string by `is not None` (the group can match the empty text); Ref.__init__ has_value table.'),
+        ' Also (D2): the JSON reference branch decides presence of the display string by `is not None` (the group can match the empty text); Ref.__init__ has_value table.'
+        " Also (D6): ordered structures are not built by walking a set expression; dict comprehensions over items() accepted in the assembly script.  A `%` whose left operand carries a value's own text is a violation (data as format)."),
     'rule_text': 'obligations = ladder rows, kinds x (first-accepting entry, inclusion, capture markers) x 2 versions, '
                  'Remove rule, precision per kind, assembly facts',
     'trusted_base': ['re semantics of `.match`, `^`, `$`+MULTILINE, `.` without DOTALL; json.dumps/json.loads round-trip '
@@ -59,6 +60,8 @@ def run(ctx):
     J.verbatim_payload(ctx, 'C02.D3', entries, fn)
     J.time_fields_exact(ctx, 'C02.D5', entries, fn)
     J.number_branch(ctx, 'C02.D2', entries, fn)
+    from . import _parse
+    _parse.set_iteration(ctx, 'C02.D6', ('jsonparser', 'jsondumper'))
     from . import _ref
     _ref.json_ref_branch(ctx, 'C02.D2')
     _ref.ref_init(ctx, 'C02.D2')
@@ -107,7 +110,11 @@ def _kind(ctx, entries, kind, version, rule='C02.D2', rule3='C02.D3', rule5='C02
     try:
         rets, node, lad = J.writer_value(ctx, rule, kind, version)
     except (Unsupported, AnalysisError) as e:
-        ctx.error(rule, 'JSON writer value for %s (%s): %s' % (kind, version, e))
+        from .. import templates as _TPL
+        if isinstance(e, _TPL.DataAsFormat):
+            _TPL.report_data_as_format(ctx, rule, e, 'hszinc/jsondumper.py', 'hszinc/jsondumper.py::dump_scalar[%s]' % kind)
+        else:
+            ctx.error(rule, 'JSON writer value for %s (%s): %s' % (kind, version, e))
         return
     if rets is None:
         return
@@ -471,20 +478,27 @@ def _assembly(ctx):
             'grid metadata is lost')
     sc.need(["_R_version = Version(_R_meta.pop('ver'))"], 'the version is meta.ver (and is removed from the metadata)',
             'the parsed grid has the wrong version, or `ver` shows up as a metadata tag')
-    sc.need(['for (_R_mname, _R_mvalue) in _R_meta.items():\n    pass'], 'grid metadata is visited in document order',
-            'grid metadata comes back in another order')
-    sc.need(['_R_metadata[_R_mname] = parse_embedded_scalar(_R_mvalue, version=_R_version)'],
-            'every remaining meta item is decoded into the grid metadata', 'grid metadata items are dropped or mis-keyed')
+    # (a dict comprehension over items() is the loop and the store in one statement)
+    if sc.need(['_R_metadata = {_R_mname: parse_embedded_scalar(_R_mvalue, version=_R_version) for (_R_mname, _R_mvalue) in _R_meta.items()}'],
+               'grid metadata is decoded item by item in document order (dict comprehension over items())',
+               'grid metadata comes back in another order', optional=True) is None:
+        sc.need(['for (_R_mname, _R_mvalue) in _R_meta.items():\n    pass'], 'grid metadata is visited in document order',
+                'grid metadata comes back in another order')
+        sc.need(['_R_metadata[_R_mname] = parse_embedded_scalar(_R_mvalue, version=_R_version)'],
+                'every remaining meta item is decoded into the grid metadata', 'grid metadata items are dropped or mis-keyed')
     sc.need(['_R_grid = Grid(version=_R_version, metadata=_R_metadata)'], 'the grid is built with that version and metadata',
             'version/metadata do not reach the grid')
     sc.need(["for _R_col in _R_parsed.pop('cols'):\n    pass", "for _R_col in _R_parsed['cols']:\n    pass"],
             'columns are read in document order', 'columns come back in another order')
     sc.need(["_R_cname = _R_col.pop('name')"], 'each column takes its name from cols[].name (removed from its metadata)',
             'columns lose their names, or `name` shows up as column metadata')
-    sc.need(['for (_R_ckey, _R_cvalue) in _R_col.items():\n    pass'], 'column metadata is visited in document order',
-            'column metadata comes back in another order')
-    sc.need(['_R_cmeta[_R_ckey] = parse_embedded_scalar(_R_cvalue, version=_R_version)'],
-            'the remaining keys of a column are decoded as its metadata', 'column metadata is dropped')
+    if sc.need(['_R_cmeta = {_R_ckey: parse_embedded_scalar(_R_cvalue, version=_R_version) for (_R_ckey, _R_cvalue) in _R_col.items()}'],
+               'column metadata is decoded item by item in document order (dict comprehension over items())',
+               'column metadata comes back in another order', optional=True) is None:
+        sc.need(['for (_R_ckey, _R_cvalue) in _R_col.items():\n    pass'], 'column metadata is visited in document order',
+                'column metadata comes back in another order')
+        sc.need(['_R_cmeta[_R_ckey] = parse_embedded_scalar(_R_cvalue, version=_R_version)'],
+                'the remaining keys of a column are decoded as its metadata', 'column metadata is dropped')
     sc.need(['_R_grid.column[_R_cname] = _R_cmeta'], 'columns are added with their metadata', 'columns are lost or lose their metadata')
     sc.need(["for _R_row in _R_parsed.pop('rows', []) or []:\n    pass"],
             'rows may be missing or null, and are read in document order',
@@ -492,9 +506,11 @@ def _assembly(ctx):
             bad=["for _R_row in _R_parsed.pop('rows'):\n    pass", "for _R_row in _R_parsed['rows']:\n    pass",
                  "for _R_row in _R_parsed.pop('rows', []):\n    pass", "for _R_row in _R_parsed.get('rows'):\n    pass",
                  "for _R_row in _R_parsed.get('rows', []):\n    pass"])
-    sc.need(['for (_R_rcol, _R_rvalue) in _R_row.items():\n    pass'], 'every key of a row is visited', 'cells are dropped')
-    sc.need(['_R_prow[_R_rcol] = parse_embedded_scalar(_R_rvalue, version=_R_version)'], 'every cell of a row is decoded',
-            'cells are dropped or stored under the wrong column')
+    if sc.need(['_R_prow = {_R_rcol: parse_embedded_scalar(_R_rvalue, version=_R_version) for (_R_rcol, _R_rvalue) in _R_row.items()}'],
+               'every cell of a row is decoded (dict comprehension over items())', 'cells are dropped', optional=True) is None:
+        sc.need(['for (_R_rcol, _R_rvalue) in _R_row.items():\n    pass'], 'every key of a row is visited', 'cells are dropped')
+        sc.need(['_R_prow[_R_rcol] = parse_embedded_scalar(_R_rvalue, version=_R_version)'], 'every cell of a row is decoded',
+                'cells are dropped or stored under the wrong column')
     sc.need(['_R_grid.append(_R_prow)'], 'rows are appended in document order', 'rows are lost')
     sc.need(['return _R_grid'], 'the assembled grid is returned', 'parse returns something else than the grid')
     # writer side shape
